@@ -358,9 +358,54 @@ type predInfo struct {
 }
 
 func (c *Ctx) scanPreds(fi *FuncInfo, args []ast.Expr, pi *predInfo) {
+	c.scanPredsD(fi, args, pi, 0)
+}
+
+// scanPredsD also looks through what a refactoring may put between the builder call and the conditions: a local variable holding
+// a condition or a condition list, and a module function that returns one (its return expressions are scanned in its own context).
+func (c *Ctx) scanPredsD(fi *FuncInfo, args []ast.Expr, pi *predInfo, depth int) {
 	info := fi.Pkg.TypesInfo
 	for _, a := range args {
-		call, ok := ast.Unparen(a).(*ast.CallExpr)
+		a = ast.Unparen(a)
+		if cl, ok := a.(*ast.CompositeLit); ok {
+			var elts []ast.Expr
+			for _, el := range cl.Elts {
+				if kv, ok := el.(*ast.KeyValueExpr); ok {
+					el = kv.Value
+				}
+				elts = append(elts, el)
+			}
+			c.scanPredsD(fi, elts, pi, depth)
+			continue
+		}
+		if id, ok := a.(*ast.Ident); ok && depth < 4 {
+			// local variable: every value assigned to it
+			obj := info.ObjectOf(id)
+			if v, isVar := obj.(*types.Var); isVar && !v.IsField() && fi.Decl.Body != nil {
+				ast.Inspect(fi.Decl.Body, func(n ast.Node) bool {
+					as, ok := n.(*ast.AssignStmt)
+					if !ok {
+						return true
+					}
+					for i, lh := range as.Lhs {
+						if l, ok := lh.(*ast.Ident); ok && info.ObjectOf(l) == obj && i < len(as.Rhs) && len(as.Lhs) == len(as.Rhs) {
+							rhs := ast.Unparen(as.Rhs[i])
+							// x = append(x, conds…)
+							if call, ok := rhs.(*ast.CallExpr); ok {
+								if fid, ok := call.Fun.(*ast.Ident); ok && fid.Name == "append" && len(call.Args) > 1 {
+									c.scanPredsD(fi, call.Args[1:], pi, depth+1)
+									continue
+								}
+							}
+							c.scanPredsD(fi, []ast.Expr{rhs}, pi, depth+1)
+						}
+					}
+					return true
+				})
+			}
+			continue
+		}
+		call, ok := a.(*ast.CallExpr)
 		if !ok {
 			continue
 		}
@@ -373,11 +418,28 @@ func (c *Ctx) scanPreds(fi *FuncInfo, args []ast.Expr, pi *predInfo) {
 			continue
 		}
 		if objPkgPath(o) != pkgSQL {
+			// a module helper returning a condition / a list of conditions
+			if fn, ok := o.(*types.Func); ok && strings.HasPrefix(objPkgPath(o), modPath) && depth < 4 {
+				if hp := c.ByPath[objPkgPath(o)]; hp != nil {
+					if hd := c.declOf(hp, fn); hd != nil && hd.Body != nil {
+						hfi := &FuncInfo{Pkg: hp, Decl: hd}
+						ast.Inspect(hd.Body, func(n ast.Node) bool {
+							if _, isLit := n.(*ast.FuncLit); isLit {
+								return false
+							}
+							if r, ok := n.(*ast.ReturnStmt); ok && len(r.Results) >= 1 {
+								c.scanPredsD(hfi, r.Results[:1], pi, depth+1)
+							}
+							return true
+						})
+					}
+				}
+			}
 			continue
 		}
 		switch o.Name() {
 		case "And":
-			c.scanPreds(fi, call.Args, pi)
+			c.scanPredsD(fi, call.Args, pi, depth)
 		case "Ge", "Gt", "Le", "Lt":
 			if len(call.Args) != 2 {
 				continue
